@@ -51,6 +51,8 @@ type Frame struct {
 	isTop  bool
 	loopDec map[*loopInfo]*Term // variant value at loop head
 	pureRet *[]pureResult
+	unroll      int
+	unrollCount map[*loopInfo]int
 }
 
 type deferRec struct {
@@ -87,6 +89,10 @@ type State struct {
 	dead    bool
 	nframes int
 	axioms  []*Term
+	rangeApps []*rangeApp
+	facts   map[string]bool
+	known   map[string]uint64
+	factsShared bool
 }
 
 func (s *State) clone() *State {
@@ -105,6 +111,12 @@ func (s *State) clone() *State {
 				nf.loopDec[k] = v
 			}
 		}
+		if f.unrollCount != nil {
+			nf.unrollCount = map[*loopInfo]int{}
+			for k, v := range f.unrollCount {
+				nf.unrollCount[k] = v
+			}
+		}
 		n.frames[i] = &nf
 	}
 	n.heap = s.heap.clone()
@@ -115,7 +127,10 @@ func (s *State) clone() *State {
 		n.candSet[k] = true
 	}
 	n.quants = append([]*Quant(nil), s.quants...)
+	s.factsShared = true
+	n.factsShared = true
 	n.axioms = append([]*Term(nil), s.axioms...)
+	n.rangeApps = append([]*rangeApp(nil), s.rangeApps...)
 	n.trace = append([]string(nil), s.trace...)
 	n.loops = append([]*loopInst(nil), s.loops...)
 	return &n
@@ -128,6 +143,101 @@ func (s *State) assume(t *Term) {
 		return
 	}
 	s.pc = append(s.pc, t)
+	s.learn(t, true, 0)
+}
+
+// learn records cheap syntactic facts from an assumed formula (used only to prune infeasible branches).
+func (s *State) learn(t *Term, val bool, depth int) {
+	if depth > 6 || t.Const {
+		return
+	}
+	if s.facts == nil {
+		s.facts = map[string]bool{}
+		s.known = map[string]uint64{}
+	} else if s.factsShared {
+		nf := make(map[string]bool, len(s.facts)+8)
+		for k, v := range s.facts {
+			nf[k] = v
+		}
+		nk := make(map[string]uint64, len(s.known)+8)
+		for k, v := range s.known {
+			nk[k] = v
+		}
+		s.facts, s.known, s.factsShared = nf, nk, false
+	}
+	s.facts[t.S] = val
+	switch t.Op {
+	case "and":
+		if val {
+			for _, a := range t.Args {
+				s.learn(a, true, depth+1)
+			}
+		}
+	case "not":
+		s.learn(t.Args[0], !val, depth+1)
+	case "=":
+		if val {
+			a, b := t.Args[0], t.Args[1]
+			if b.Const && b.Sort.K == KBV && !a.Const {
+				s.known[a.S] = b.C
+			} else if a.Const && a.Sort.K == KBV && !b.Const {
+				s.known[b.S] = a.C
+			}
+		}
+	}
+}
+
+// truth decides a branch condition from the recorded facts: +1 true, -1 false, 0 unknown.
+func (s *State) truth(t *Term, depth int) int {
+	if t.Const {
+		if t.B {
+			return 1
+		}
+		return -1
+	}
+	if depth > 6 || s.facts == nil {
+		return 0
+	}
+	if v, ok := s.facts[t.S]; ok {
+		if v {
+			return 1
+		}
+		return -1
+	}
+	switch t.Op {
+	case "not":
+		return -s.truth(t.Args[0], depth+1)
+	case "and":
+		all := 1
+		for _, a := range t.Args {
+			switch s.truth(a, depth+1) {
+			case -1:
+				return -1
+			case 0:
+				all = 0
+			}
+		}
+		return all
+	case "=":
+		a, b := t.Args[0], t.Args[1]
+		if a.Sort.K == KBV {
+			va, oka := a.C, a.Const
+			if !oka {
+				va, oka = s.known[a.S]
+			}
+			vb, okb := b.C, b.Const
+			if !okb {
+				vb, okb = s.known[b.S]
+			}
+			if oka && okb {
+				if va == vb {
+					return 1
+				}
+				return -1
+			}
+		}
+	}
+	return 0
 }
 
 type cand struct {
@@ -201,11 +311,14 @@ type Exec struct {
 	typeAxioms []*Term
 	entryState *State
 	retProbed map[*ssa.Return]bool
+	retProbes int
 	pureDepth int
 	sink      *querySink
 	pol       int // polarity of the clause being evaluated: +1 goal, -1 hypothesis, 0 unknown
 	paramVals []Value
 	addrOf    map[string]*addrInfo
+	rangeApps   []*rangeApp
+	rangeAxioms []rangeAxiom
 }
 
 func posOf(in ssa.Instruction) token.Pos {
@@ -857,6 +970,16 @@ func (e *Exec) toBV64(t *Term, ty types.Type) *Term {
 // ---------- control flow
 
 func (e *Exec) branch(s *State, f *Frame, cond *Term, bt, bf *ssa.BasicBlock, pos token.Pos) {
+	if !cond.Const {
+		switch s.truth(cond, 0) {
+		case 1:
+			e.gotoBlock(s, f, bt, pos)
+			return
+		case -1:
+			e.gotoBlock(s, f, bf, pos)
+			return
+		}
+	}
 	if cond.Const {
 		if cond.B {
 			e.gotoBlock(s, f, bt, pos)
@@ -902,7 +1025,20 @@ func (e *Exec) gotoBlock(s *State, f *Frame, target *ssa.BasicBlock, pos token.P
 		}
 		break
 	}
-	if li, ok := loops.byHeader[target]; ok {
+	if li, ok := loops.byHeader[target]; ok && f.unroll > 0 {
+		// inlined callee unrolled on request of the lemma under proof: no cut point; the bound is an obligation
+		if f.unrollCount == nil {
+			f.unrollCount = map[*loopInfo]int{}
+		}
+		if li.blocks[from] {
+			f.unrollCount[li]++
+			if f.unrollCount[li] > f.unroll {
+				e.emit(s, fmt.Sprintf("unwind.%s.loop%d", f.fn.Name(), li.ordinal), False, pos)
+				s.dead = true
+				return
+			}
+		}
+	} else if ok {
 		if li.blocks[from] && e.inLoop(s, f, li) {
 			// back edge
 			e.loopBack(s, f, li)
